@@ -155,7 +155,8 @@ Inductive label :=
 | QStale (q : N) (ps : list path)
 | QPin (q : N)
 | QRead (q : N)
-| QUnpin (q : N).
+| QUnpin (q : N)
+| RetentionFail.                    (* enforce_retention read its cut-off, then its first delete_chunk failed *)
 
 (* field updates, written out (no record-update syntax in plain Coq) *)
 Definition with_now (s : st) (v : Z) : st :=
@@ -265,6 +266,7 @@ Definition step (c : gcfg) (s : st) (x : label) : st :=
       | Some (mkQ ps true) => with_query s (remove_each ps (pins s)) (adel N.eqb q (queries s)) (qlog s)
       | _ => s
       end
+  | RetentionFail => with_hw s (bclock s)
   end.
 
 Definition run (c : gcfg) (h : list label) (s : st) : st := fold_left (step c) h s.
@@ -391,11 +393,13 @@ Definition pass_time (c : gcfg) (s : st) (x : label) : Z :=
 Definition after_deletes_x (c : gcfg) (s : st) : st :=
   if gc_active s
   then match gcsel s with
-       | [] => step c s GcEnd
+       | [] => step c (step c s GcEnd) RetentionFail
        | _ => s
        end
   else s.
-Definition drv_begin_x (c : gcfg) (s : st) : st := step c s GcFilter.
+Definition drv_begin_x (c : gcfg) (s : st) : st :=
+  let s1 := step c s GcFilter in
+  if gc_active s1 then s1 else step c s1 RetentionFail.
 Definition drv_delete_x (c : gcfg) (s : st) (p : path) : st :=
   if gc_active s && memN p (gcsel s) then after_deletes_x c (step c s (GcDelete p)) else s.
 Definition drv_finish_x (c : gcfg) (s : st) : st :=
